@@ -575,6 +575,10 @@ func (E *Engine) globalsObligations(p string, enc *FnEnc) {
 		if sp == nil {
 			continue
 		}
+		if gr.Kind == "native_closures" {
+			E.nativeClosureObligation(gr, sp, enc)
+			continue
+		}
 		except := map[string]bool{}
 		for _, x := range gr.Except {
 			except[x] = true
@@ -832,4 +836,118 @@ func (E *Engine) initArgOf(pkg, gname string) (string, string) {
 		return "", "the first argument of its initialiser is not a constant string"
 	}
 	return constant.StringVal(c.Value), ""
+}
+
+// reachesRuntime: can a value of this type hold (a path to) a runtime, an object or a
+// language value?  Interfaces and function values are treated as if they could.
+func reachesRuntime(t types.Type, seen map[types.Type]bool) bool {
+	if seen[t] {
+		return false
+	}
+	seen[t] = true
+	if n, ok := t.(*types.Named); ok && n.Obj().Pkg() != nil && n.Obj().Pkg().Path() == "reflect" {
+		return false // a Go value of the host: shared with the host by design, not interpreter state
+	}
+	if n, ok := t.(*types.Named); ok && n.Obj().Pkg() != nil && n.Obj().Pkg().Name() == "otto" {
+		switch n.Obj().Name() {
+		case "runtime", "object", "Otto", "Value", "Object", "FunctionCall", "scope", "stash", "cloner":
+			return true
+		}
+	}
+	switch u := t.Underlying().(type) {
+	case *types.Pointer:
+		return reachesRuntime(u.Elem(), seen)
+	case *types.Slice:
+		return reachesRuntime(u.Elem(), seen)
+	case *types.Array:
+		return reachesRuntime(u.Elem(), seen)
+	case *types.Map:
+		return reachesRuntime(u.Key(), seen) || reachesRuntime(u.Elem(), seen)
+	case *types.Struct:
+		for i := 0; i < u.NumFields(); i++ {
+			if reachesRuntime(u.Field(i).Type(), seen) {
+				return true
+			}
+		}
+	case *types.Interface, *types.Signature, *types.Chan:
+		return true
+	}
+	return false
+}
+
+// nativeClosureObligation: Copy() copies nativeFunctionObject.call (a Go function value) as
+// it is, so a function literal of type func(FunctionCall) Value that captures a runtime, an
+// object or a value would make the copy read or write the original's state.  Every such
+// literal in the package captures nothing of that kind (functions listed under except= are
+// documented exceptions).
+func (E *Engine) nativeClosureObligation(gr *GlobalsReadonly, sp *ssa.Package, enc *FnEnc) {
+	except := map[string]bool{}
+	for _, x := range gr.Except {
+		except[x] = true
+	}
+	isNative := func(sig *types.Signature) bool {
+		if sig.Recv() == nil && sig.Params().Len() == 2 && sig.Results().Len() == 1 {
+			// constructFunction: func(*object, []Value) Value
+			if pp, ok := sig.Params().At(0).Type().(*types.Pointer); ok {
+				if pn, ok := pp.Elem().(*types.Named); ok && pn.Obj().Name() == "object" && pn.Obj().Pkg() == sp.Pkg {
+					if sl, ok := sig.Params().At(1).Type().(*types.Slice); ok {
+						en, ok1 := sl.Elem().(*types.Named)
+						rn, ok2 := sig.Results().At(0).Type().(*types.Named)
+						return ok1 && ok2 && en.Obj().Name() == "Value" && rn.Obj().Name() == "Value"
+					}
+				}
+			}
+			return false
+		}
+		if sig.Recv() != nil || sig.Params().Len() != 1 || sig.Results().Len() != 1 {
+			return false
+		}
+		pn, ok1 := sig.Params().At(0).Type().(*types.Named)
+		rn, ok2 := sig.Results().At(0).Type().(*types.Named)
+		return ok1 && ok2 && pn.Obj().Name() == "FunctionCall" && rn.Obj().Name() == "Value" && pn.Obj().Pkg() == sp.Pkg && rn.Obj().Pkg() == sp.Pkg
+	}
+	var bad []string
+	n := 0
+	for _, fk := range E.L.sortedFuncKeys() {
+		fn := E.L.Funcs[fk]
+		if fn.Pkg != sp {
+			continue
+		}
+		for _, b := range fn.Blocks {
+			for _, in := range b.Instrs {
+				mc, ok := in.(*ssa.MakeClosure)
+				if !ok {
+					continue
+				}
+				cf := mc.Fn.(*ssa.Function)
+				if !isNative(cf.Signature) {
+					continue
+				}
+				n++
+				if except[fn.Name()] || except[cf.Name()] {
+					continue
+				}
+				for i, bv := range mc.Bindings {
+					t := bv.Type()
+					if pt, ok := t.(*types.Pointer); ok && i < len(cf.FreeVars) {
+						// captured by reference: the cell's content type decides
+						t = pt.Elem()
+						_ = cf.FreeVars[i]
+					}
+					if reachesRuntime(t, map[types.Type]bool{}) {
+						pos := E.L.Prog.Fset.Position(cf.Pos())
+						bad = append(bad, fmt.Sprintf("%s captures %s (%s) (%s:%d)", cf.Name(), cf.FreeVars[i].Name(), bv.Type(), strings.TrimPrefix(pos.Filename, repoDir+"/"), pos.Line))
+					}
+				}
+			}
+		}
+	}
+	cond := "true"
+	text := fmt.Sprintf("none of the %d function literals of type func(FunctionCall) Value or func(*object, []Value) Value in package %s captures a runtime, object or value (exceptions: %s)", n, gr.Pkg, strings.Join(gr.Except, ", "))
+	if len(bad) > 0 {
+		cond = "false"
+		text += " -- violated: " + strings.Join(bad, "; ")
+	}
+	enc.obls = append(enc.obls, &Obl{Name: fmt.Sprintf("%s#frame.native-closures", gr.Pkg), Kind: "frame.globals", Func: "lemmas",
+		Props: gr.Props, PC: "true", Cond: cond, Pos: fmt.Sprintf("%s:%d", strings.TrimPrefix(gr.File, repoDir+"/"), gr.Line), Text: text, enc: enc, Trivial: cond == "true"})
 }
